@@ -39,7 +39,10 @@ def run_patch(pp):
             else:
                 res[pid] = {"exit": 0, "rules": []}
         except AnalysisError as e:
-            res[pid] = {"exit": 2, "rules": [], "why": str(e)[:160]}
+            if ctx.violations:
+                res[pid] = {"exit": 1, "rules": sorted({v.rule for v in ctx.violations})}
+            else:
+                res[pid] = {"exit": 2, "rules": [], "why": str(e)[:160]}
         except Exception as e:  # noqa
             res[pid] = {"exit": 2, "rules": [], "why": f"crash {type(e).__name__}: {e}"[:160]}
     return pp, res
